@@ -64,7 +64,7 @@ def cases(tier):
                         yield {"n": n, "pattern": pname, "idxs": idxs, "rate_modifier": rm, "ode_modifier": om}
 
 
-def build(case, with_mods=True):
+def build(case, with_mods=True, via="constructor"):
     from naunet.network import Network
     from naunet.reactions.reaction import Reaction
     from naunet.reactiontype import ReactionType
@@ -78,6 +78,14 @@ def build(case, with_mods=True):
             kw["rate_modifier"] = {int(k): v for k, v in case["rate_modifier"].items()}
         if case["ode_modifier"]:
             kw["ode_modifier"] = case["ode_modifier"]
+    if via == "setter":
+        # the same modifiers assigned to an existing network
+        net = Network(reacs)
+        if "rate_modifier" in kw:
+            net.rate_modifier = kw["rate_modifier"]
+        if "ode_modifier" in kw:
+            net.ode_modifier = {k: {"factors": list(v["factors"]), "reactants": [list(x) for x in v["reactants"]]} for k, v in kw["ode_modifier"].items()}
+        return net
     return Network(reacs, **kw)
 
 
@@ -147,6 +155,7 @@ def run_case(case):
         with quiet():
             f0 = render(build(case, False), "dense", TEMPL)
             f1 = render(build(case, True), "dense", TEMPL)
+            f2 = render(build(case, True, "setter"), "dense", TEMPL)
         o0 = observe(f0)
         o1 = observe(f1)
     except NotC as e:
@@ -157,6 +166,9 @@ def run_case(case):
         return 1, [(f"C13:render-error:{type(e).__name__}", f"{label}: {e!r}", case)]
     for sig, what in judge(case, o0, o1, label):
         viols.append((sig, what, case))
+    if f2 != f1:
+        diff = sorted(k for k in f1 if f1[k] != f2.get(k))
+        viols.append((f"C13:setter-differs", f"{label}: the modifiers assigned through the setters render {diff} differently from the same modifiers given to the constructor", case))
     return 1, viols
 
 
